@@ -17,7 +17,7 @@ ENGINES = [{
                       'subprocess.call seam), reference models as oracles; every chunk of cases runs in a process '
                       'forked from a pristine parent; candidate violations are re-run in a fresh interpreter',
 }]
-NOTES = ('The space each check enumerates is stated exactly in the `rule` field of its evidence file (written by the check itself); the level texts below describe the core of each check - every check was extended in seven rounds of independent defect seeding (253 seeded changes, all detected; DESIGN.md 8.5 lists what each round added, seeded/CATCH.md which check catches which change).  All checks: ./check <ID> --tier quick|thorough; exactly_lib is imported from /repo/src (VERIF_REPO overrides) '
+NOTES = ('The space each check enumerates is stated exactly in the `rule` field of its evidence file (written by the check itself); the level texts below describe the core of each check - every check was extended in seven rounds of independent defect seeding (264 seeded changes, all detected; DESIGN.md 8.5 lists what each round added, seeded/CATCH.md which check catches which change).  All checks: ./check <ID> --tier quick|thorough; exactly_lib is imported from /repo/src (VERIF_REPO overrides) '
          'at run time, nothing is cached between runs.  Known findings: /verif/known_findings.json.')
 
 MC = 'explicit-state exploration of the real implementation'
